@@ -64,6 +64,24 @@ fn check(ctx: &Ctx, c: &Case, label: &str, counting: bool) -> Result<(), Fail> {
 	let fail = |sig: &str, msg: String| Fail::new(format!("op=skip {}", sig), format!("v{}.{}: {}", m.version.0, m.version.1, msg)).with_file("slp", &bytes).with_detail(detail.clone());
 	let full = rt::slp_read(&bytes, false, c.hash).expect_ok("slippi::read(full)").map_err(|f| f.with_file("slp", &bytes))?;
 	let skip = rt::slp_read(&bytes, true, c.hash).expect_ok("slippi::read(skip_frames)").map_err(|f| f.with_file("slp", &bytes).with_detail(detail.clone()))?;
+	// the same skip-frames read through a stream that fragments reads must give the same start/end/metadata
+	{
+		use crate::readers::{SchedReader, Schedule};
+		let sched = match bytes.len() % 5 {
+			0 => Schedule::Fixed(1),
+			1 => Schedule::Fixed(7),
+			2 => Schedule::Random(bytes.len() as u64 + 1, 16),
+			3 => Schedule::Split(bytes.len() / 3),
+			_ => Schedule::Fixed(4096),
+		};
+		let mut r = SchedReader::new(&bytes, sched.clone());
+		let o = rt::slp_opts(true, c.hash);
+		let frag = rt::guard(|| peppi::io::slippi::read(&mut r, Some(&o))).expect_ok("slippi::read(skip_frames, fragmented)").map_err(|f| f.with_file("slp", &bytes).with_detail(json!({"model": m.summary(), "hash": c.hash, "schedule": sched.describe()})))?;
+		same_sem(&frag, &full).map_err(|e| fail("sem_fragmented", format!("skip-frames over a fragmenting stream ({}) vs full: {}", sched.describe(), e)))?;
+		if c.hash && frag.hash != full.hash {
+			return Err(fail("hash_fragmented", format!("hash {:?} vs {:?} ({})", frag.hash, full.hash, sched.describe())));
+		}
+	}
 	same_sem(&skip, &full).map_err(|e| fail("sem", format!("skip-frames vs full: {}", e)))?;
 	if c.hash && skip.hash != full.hash {
 		return Err(fail("hash", format!("hash {:?} vs {:?}", skip.hash, full.hash)));
